@@ -86,7 +86,7 @@ class Check:
             print("[%s %6.1fs]" % (self.pid, time.time() - self.t0), *a, flush=True)
 
     # ---------------------------------------------------------------- MC
-    def mc(self, module, cfg, required=(), workers=16, expect_violation=None, timeout=3600, **kw):
+    def mc(self, module, cfg, required=(), workers=16, expect_violation=None, timeout=3600, temporal=False, **kw):
         """Exhaustive TLC run of a design model.  Must hold, unless expect_violation names the
         invariant that a *_pinned deviation config is required to break (shows the model is able
         to express the defect).  Vacuity: every action in `required` must have been taken."""
@@ -105,7 +105,7 @@ class Check:
         r = tlc.run(module, run_cfg, workers=workers, coverage=True, timeout=timeout,
                     allow_violation=expect_violation is not None, **kw)
         if expect_violation is not None:
-            if r.violated != expect_violation:
+            if r.violated != ("temporal" if temporal else expect_violation):   # TLC does not name a violated liveness property
                 raise MachineryError("%s/%s: expected the deviation model to violate %s, TLC said %r"
                                      % (module, cfg, expect_violation, r.violated))
         else:
